@@ -35,7 +35,12 @@ impl Game {
         Self::from_board(Board::starting_position(), search_depth)
     }
 
-    pub fn from_board(board: Board, search_depth: u8) -> Self {
+    pub fn from_board(mut board: Board, search_depth: u8) -> Self {
+        // The starting position is the first occurrence of itself for the
+        // threefold repetition rule (unless the caller has already counted it).
+        if board.current_position_count() == 0 {
+            board.count_current_position();
+        }
         Self {
             board,
             move_history: Vec::new(),
@@ -75,6 +80,12 @@ impl Game {
 
     pub fn save_move(&mut self, chess_move: ChessMove) {
         self.move_history.push(chess_move);
+        // Count the position that has just arisen for the threefold repetition
+        // rule. The move is on the board but callers pass the turn afterwards,
+        // so it is counted as the position the opponent is about to face.
+        self.board.toggle_turn();
+        self.board.count_current_position();
+        self.board.toggle_turn();
     }
 
     pub fn most_recent_move(&self) -> Option<ChessMove> {
